@@ -65,12 +65,12 @@ def _rs(kind, seed):
 def _build(desc):
     seed = desc["seed"]
     if desc["family"] == "bm":
-        obj = streams.make_bm(desc["name"], desc["budget"], desc["w"], _rs(desc["rs"], seed))
+        obj = streams.make_bm(desc["name"], desc["budget"], desc["w"], _rs(desc["rs"], seed), **streams.variant_kwargs(desc["name"], seed))
         return obj
     bm = None
     if desc["bm"]:
-        bm = streams.make_bm(desc["bm"], desc["budget"], desc["w"], _rs(desc["rs"], seed + 1))
-    extra = {}
+        bm = streams.make_bm(desc["bm"], desc["budget"], desc["w"], _rs(desc["rs"], seed + 1), **streams.variant_kwargs(desc["bm"], seed + 1))
+    extra = dict(streams.variant_kwargs(desc["name"], seed))
     if desc["name"] == "StreamDensityBasedAL":
         extra["window_size"] = max(2, desc["w"] // 2)
     if desc["name"].startswith("Cognitive"):
